@@ -217,7 +217,7 @@ def execute_large(case):
         for b in check_open(list(vfs.LOG), fname, im, rpc or 1024):
             fails.append({"sig": {"kind": "open"}, "detail": f"{tc} {L}x{P} rpc={rpc or 'default'}: {b}", "case": {**case, "fn": "execute_large"}})
         da = tree["imagery/HH_scan2/data" if hdr else "imagery/HH/data"]
-        sels = [0, L // 2, L - 1, slice(None), slice(50, L - 50), slice(1, None), slice(0, L - 1), slice(1020, 1030), slice(1024, 1025), slice(0, L, 1024), slice(L // 3, L // 3 + 5), slice(None, None, 16), slice(None, None, 2), slice(0, 64), slice(0, 128), slice(64, 65), slice(L - 3, None), slice(None, None, -7), [3, L - 2], slice(2, 2)]
+        sels = [0, L - 1, slice(None), slice(1, L - 1), slice(None, None, 7), [3, L - 2], slice(2, 2)] if case.get("few") else [0, L // 2, L - 1, slice(None), slice(50, L - 50), slice(1, None), slice(0, L - 1), slice(1020, 1030), slice(1024, 1025), slice(0, L, 1024), slice(L // 3, L // 3 + 5), slice(None, None, 16), slice(None, None, 2), slice(0, 64), slice(0, 128), slice(64, 65), slice(L - 3, None), slice(None, None, -7), [3, L - 2], slice(2, 2)]
         for sel in sels:
             rows = list(range(L))[sel] if isinstance(sel, slice) else ([sel] if isinstance(sel, int) else list(sel))
             vfs.reset_log()
@@ -288,7 +288,7 @@ def run(res, tier, seed):
         " each load's mcfs:// event log is checked against byte spans computed by independent arithmetic; the same bounds for loads from deep copies / pickle round trips of the lazy object; plus one"
         " open_alos2 metadata-pass log per (type, L, P, rpc); plus the same loads on an image opened through an index cache that was"
         " written and first used with a different rpc (groups are those of the *requested* rpc), and through an index written by the command line tool elsewhere and deployed next to the image (every selection = first load of a fresh copy); plus 20 selections on realistically sized"
-        " images (640x1000 IU2, 320x600 C*8 at rpc {default, 64, 1000}; 2500x8 IU2, 2100x3 C*8 at rpc {default, 100, 1000, 2048}; 1300x40000 IU2 (104 MB) at rpc {default, 64, 100}, 300x40000 C*8 at rpc 7, 5120x4 IU2). A batch is non-trivial if at least one selection loads >= 1 line."
+        " images (640x1000 IU2, 320x600 C*8 at rpc {default, 64, 1000}; 2500x8 IU2, 2100x3 C*8 at rpc {default, 100, 1000, 2048}; 1300x40000 IU2 (104 MB) at rpc {default, 64, 100}, 300x40000 C*8 at rpc 7, 5120x4 IU2; 290x124931 C*8 at rpc 290 and 300x499000 IU2 at the default rpc: single requests of 290-300 MB, 7 selections each). A batch is non-trivial if at least one selection loads >= 1 line."
     )
     res.assumptions = ["I/O is observed at the fsspec file-object level (open/seek/read), not at the OS level"]
     n = na = nskip = 0
@@ -304,6 +304,9 @@ def run(res, tier, seed):
     large += [{"type": tc, "L": nb * lb, "P": 3, "rpc": rpc, "bursts": [nb, lb]} for tc in ("C*8", "IU2") for nb, lb in ((3, 4), (4, 3), (5, 8)) for rpc in (5, 6, 7, 1024)]
     # ~100 MB: selections beyond 64 MiB, requests of 5 / 8 / 80 MB
     large += [{"type": "IU2", "L": 1300, "P": 40000, "rpc": rpc} for rpc in (None, 64, 100)] + [{"type": "C*8", "L": 300, "P": 40000, "rpc": 7}, {"type": "IU2", "L": 5120, "P": 4, "rpc": None}]
+    # ~290 MB in 290-300 lines of nearly the longest record the 6-digit length field allows: one request of > 256 MiB
+    huge = [{"type": "C*8", "L": 290, "P": (999_999 - synth.TYPE_INFO["C*8"]["prefix"]) // 8, "rpc": 290, "few": True}, {"type": "IU2", "L": 300, "P": 499_000, "rpc": None, "few": True}]
+    large = huge + large  # started first: they take the longest
     for idx, case, out in core.pool_map(__name__, "execute_large", large, chunksize=1):
         res.record({**case, "fn": "execute_large"}, out, order=10**6 + idx)
         n += out["n"]
